@@ -51,19 +51,39 @@ def _collect_pow(expr: Pow) -> tuple[Expr, Dimension]:
     raise ValueError(f"Dimension of '{expr.exp}' is {exp_dim}, but it should be dimensionless")
 
 
-@_elementwise_wrapper
-def _collect_add(factor: Expr, dim: Dimension, arg: Expr) -> tuple[Expr, Dimension]:
-    arg_factor, arg_dim = collect_quantity_factor_and_dimension(arg)
+def _collect_same_dimension(
+    expr: Expr,
+    combine: Callable[[Expr, Expr], Expr],
+) -> tuple[Expr, Dimension]:
+    """
+    Folds the arguments of ``expr`` with ``combine`` checking that all of them have equivalent
+    dimensions. Arguments whose factor is `0`, `±Inf`, or `NaN` are compatible with any dimension,
+    therefore the reference dimension is that of the first argument which is not of that kind (and
+    not that of the partial result, which can become zero and thereby lose its dimension).
+    """
 
-    if is_any_dimension(factor):
-        dim = arg_dim
-    elif is_any_dimension(arg_factor):
-        arg_dim = dim
+    factor, dim = collect_quantity_factor_and_dimension(expr.args[0])
+    has_dim = not is_any_dimension(factor)
 
-    if not dimsys_SI.equivalent_dims(dim, arg_dim):
-        raise ValueError(f"Dimension of '{arg}' is {arg_dim}, but it should be {dim}")
+    for arg in expr.args[1:]:
+        arg_factor, arg_dim = collect_quantity_factor_and_dimension(arg)
 
-    return (factor + arg_factor, dim)
+        if not is_any_dimension(arg_factor):
+            if not has_dim:
+                dim = arg_dim
+                has_dim = True
+            elif not dimsys_SI.equivalent_dims(dim, arg_dim):
+                raise ValueError(f"Dimension of '{arg}' is {arg_dim}, but it should be {dim}")
+        elif not has_dim:
+            dim = arg_dim
+
+        factor = combine(factor, arg_factor)
+
+    return (factor, dim)
+
+
+def _collect_add(expr: Add) -> tuple[Expr, Dimension]:
+    return _collect_same_dimension(expr, lambda factor, arg_factor: factor + arg_factor)
 
 
 def _collect_abs(expr: Abs) -> tuple[Expr, Dimension]:
@@ -73,21 +93,7 @@ def _collect_abs(expr: Abs) -> tuple[Expr, Dimension]:
 
 def _collect_min_max(expr: MinMaxBase) -> tuple[Expr, Dimension]:
     cls = type(expr)
-
-    def collect(factor: Expr, dim: Dimension, arg: Expr) -> tuple[Expr, Dimension]:
-        arg_factor, arg_dim = collect_quantity_factor_and_dimension(arg)
-
-        if is_any_dimension(factor):
-            dim = arg_dim
-        elif is_any_dimension(arg_factor):
-            arg_dim = dim
-
-        if not dimsys_SI.equivalent_dims(dim, arg_dim):
-            raise ValueError(f"Dimension of '{arg}' is {arg_dim}, but it should be {dim}")
-
-        return (cls(factor, arg_factor), dim)
-
-    return _elementwise_wrapper(collect)(expr)
+    return _collect_same_dimension(expr, cls)
 
 
 def _collect_function(expr: SymFunction) -> tuple[Expr, Dimension]:
